@@ -7,7 +7,7 @@ RULE = ("CMRgraphicTestMatrix and CMRgraphicTestTranspose with graph, forest and
         "definition graphic_bf; every 'yes' certified by the Coq-verified checker check_graph_cert (T acyclic, one edge per "
         "row/column, every column's support is the simple T-path between the ends of its coforest edge); matrices M(G,T) of "
         "random multigraphs (loops, parallel edges, isolated nodes, several components) with random forests and line orders, "
-        "with the generating graph as a witness the judge verifies (expected yes); random matrices around non-graphic cores "
+        "and of graphs glued from 3-connected pieces, polygons and bonds along edges, with the generating graph as a witness the judge verifies (expected yes); random matrices around non-graphic cores "
         "verified by the oracle (expected no); single-entry corruptions; non-trivial = distinct case with >= 2 rows and columns "
         "and >= 3 nonzeros")
 CODES = {1: "malformed record", 90: "call failed", 91: "verdict not written", 92: "verdict differs from the definition (brute force, <= 4 rows)",
@@ -48,6 +48,18 @@ def run(ctx):
         if rng.below(3) == 0:
             C = gen.corrupt(rng, M, (0, 1))
             lines.append("%d %s 0" % (0, mat_line(C, m, n)))
+    # graphs glued from 3-connected pieces, polygons and bonds along edges: the member types and path configurations
+    # the typing code of the column-addition algorithm distinguishes (expected yes, witness verified by the judge)
+    for _ in range(3000 if q else 40000):
+        nv, E = gen.glued_graph(rng)
+        M, w = gen.graph_instance(rng, nv, len(E), False, loops=False, edges=E)
+        if not M or not M[0]:
+            continue
+        m, n = len(M), len(M[0])
+        if rng.below(2):
+            lines.append("1 %s %s" % (mat_line(transpose(M, m, n), n, m), w))
+        else:
+            lines.append("0 %s %s" % (mat_line(M, m, n), w))
     cores = [gen.F7, gen.F7T, gen.K33_DUAL]
     for _ in range(300 if q else 3000):
         core = rng.choice(cores)
